@@ -94,6 +94,8 @@ theorem step_inv (s : State) (op : List String) (h : Inv s) : ∀ o ∈ step s o
     simp at ho; subst ho; exact h
   · -- inject
     simp at ho; subst ho; exact deliver_inv s _ h
+  · -- send
+    simp at ho; subst ho; exact h
   · -- recv
     split at ho
     · simp at ho
